@@ -33,7 +33,4 @@
   (=> (bvsgt n #x0000000000000000)
       (= (lineS s a off n)
          (and (accS s (select a off)) (lineS (mkS s (select a off)) a (bvadd off #x0000000000000001) (bvsub n #x0000000000000001))))))
-; a line depends only on the array segment it occupies (consequence of the two clauses above by induction on n)
-(define-fun lineSegOK ((s BS) (a MvArr) (i (_ BitVec 64)) (b MvArr) (j (_ BitVec 64)) (n (_ BitVec 64))) Bool
-  (=> (forall ((k (_ BitVec 64))) (=> (and (bvsle #x0000000000000000 k) (bvslt k n)) (= (select a (bvadd i k)) (select b (bvadd j k)))))
-      (= (lineS s a i n) (lineS s b j n))))
+; (that a line depends only on the array segment it occupies is lemma lineSeg, proved by induction in search/contracts_verif.go)
